@@ -81,7 +81,7 @@ class LF:
             if nn in new:
                 raise PolarsError(f"DuplicateError: column {nn!r} would occur twice after rename")
             new[nn] = tok
-        return LF(new, self.hist + (("rename",),))
+        return LF(new, self.hist)  # a relabelling, not a row operation
 
     def with_columns(self, *exprs, **named):
         items = self._exprs(exprs, named)
